@@ -127,7 +127,19 @@ func cmdCheck(args []string) {
 	if *tier == "thorough" {
 		timeout = 60 * time.Second
 	}
-	solver := newSolver(filepath.Join(vd, "out", "smt", ps.ID), timeout)
+	// solver files go to a directory of this run only (several runs of one property may be under way at the same time) and
+	// are removed again when the run ends without a violation: one run writes up to ~100 MB, named by content hash, which
+	// would otherwise pile up across changed trees. Directories that crashed runs left behind are pruned after six hours.
+	smtRoot := filepath.Join(vd, "out", "smt", ps.ID)
+	if ents, err := os.ReadDir(smtRoot); err == nil {
+		for _, e := range ents {
+			if fi, err := e.Info(); err == nil && time.Since(fi.ModTime()) > 6*time.Hour {
+				os.RemoveAll(filepath.Join(smtRoot, e.Name()))
+			}
+		}
+	}
+	smtDir := filepath.Join(smtRoot, fmt.Sprintf("run-%d", os.Getpid()))
+	solver := newSolver(smtDir, timeout)
 
 	// closure of units
 	todo := p.unitsFor(ps.Roots)
@@ -402,8 +414,9 @@ func cmdCheck(args []string) {
 		fmt.Println(v)
 	}
 	if len(violations) > 0 {
-		os.Exit(1)
+		os.Exit(1) // the solver files of a failing run are kept for inspection
 	}
+	os.RemoveAll(smtDir)
 	for _, l := range limits {
 		if strings.HasPrefix(l, "VACUOUS") {
 			fmt.Println("check is broken: vacuous contract")
